@@ -273,7 +273,8 @@ def drv_race(tier, seed, ctx):
     detector. Every reported race becomes a failing case `matcher race ... => <n>`."""
     from vcheck import evaluate, VERIF, GOENV
     hr = os.path.join(ctx['tmp'], 'harness-race')
-    b = subprocess.run(['go', 'build', '-race', '-tags', 'verif', '-o', hr, '.'], cwd=os.path.join(VERIF, 'harness'),
+    from vcheck import modfile_args
+    b = subprocess.run(['go', 'build'] + modfile_args(ctx['tmp']) + ['-race', '-tags', 'verif', '-o', hr, '.'], cwd=os.path.join(VERIF, 'harness'),
                        env=GOENV, capture_output=True, text=True)
     if b.returncode != 0:
         return [], ['race build failed (no verdict from the race detector): ' + b.stderr[-300:]]
